@@ -188,7 +188,7 @@ def gen_op(rng, case, kind=None):
             return gen_op(rng, case, kind)
         top = (es[-1][0] if es else 0)
         lo = rng.choice([0, top, top + 1, rng.randint(MINC - 1, MAXC + 1)])
-        hi = rng.choice([top + 1 + rng.randint(0, 4), rng.randint(lo, MAXC + 5), lo + rng.randint(0, 3)])
+        hi = rng.choice([top + 1 + rng.randint(0, 4), rng.randint(lo, max(lo, MAXC + 5)), lo + rng.randint(0, 3)])
         step = rng.choice([1, 1, 2, 3])
         grown = copy.deepcopy(case)
         grown["es"] = grow_es(es, d, range(lo, hi, step))
